@@ -51,6 +51,9 @@ func ClassifyExit(phase string, code int, output string) harness.Result {
 				break
 			}
 		}
+		if phase == "selftest" {
+			return harness.Result{HarnessBug: "panic during the probe self-test (the instrument is in question): " + msg + " @ " + site}
+		}
 		if strings.Contains(site, "verif/dsim/") {
 			return harness.Result{HarnessBug: "panic in harness code inside an engine event: " + msg + " @ " + site}
 		}
